@@ -104,9 +104,10 @@ func c18InstanceStart(page []byte, pos int, id string) int {
 }
 
 // c18ScanPage returns the dangerous raw characters of taint tokens in the page.
-//   element content:            < > &   (quotes cannot change structure there)
-//   double-quoted attribute:    " < > & (and ' in an event-handler attribute)
-//   script / unknown context:   all five
+//
+//	element content:            < > &   (quotes cannot change structure there)
+//	double-quoted attribute:    " < > & (and ' in an event-handler attribute)
+//	script / unknown context:   all five
 func c18ScanPage(page []byte) []c18Hit {
 	var hits []c18Hit
 	for _, m := range c18MarkerRe.FindAllSubmatchIndex(page, -1) {
